@@ -25,7 +25,8 @@ type C19Case struct {
 	Zoom   int          `json:"zoom"`
 	Pts    [][2]float64 `json:"pts"` // lon, lat
 	// Order: 0 origin/centre first then parallels, 1 parallels first, 2 both set to other values first and
-	// then re-set (re-configuration must leave no stale state).  Omit: bit 0 = the origin/centre/meridian
+	// then re-set (re-configuration must leave no stale state), 4 / 5 the projection is used between two
+	// configurations that share the parallels / the origin.  Omit: bit 0 = the origin/centre/meridian
 	// setter is not called (the case then uses the default (0,0)), bit 1 = the standard-parallel setter is
 	// not called (only where the default is documented: Albers 30/60, equirectangular equator).
 	Order int `json:"order,omitempty"`
@@ -44,6 +45,12 @@ func c19Build(c C19Case) c19Projection {
 	other := geom.XY{X: c.Lon0/2 + 17, Y: -c.Lat0/2 + 11}
 	// configure runs the two setters in the drawn order, optionally after setting other values first, and
 	// leaves out the ones the case omits
+	var proj c19Projection
+	use := func() {
+		// the projection is used under the intermediate configuration (results not examined)
+		q := proj.Forward(geom.XY{X: other.X + 3, Y: other.Y - 2})
+		proj.Reverse(q)
+	}
 	configure := func(origin func(geom.XY), parallels func(p1, p2 float64)) {
 		steps := []func(){}
 		so := func() {
@@ -68,6 +75,20 @@ func c19Build(c C19Case) c19Projection {
 					parallels(c.P2/2+20, c.P1/3-35)
 				}
 			}, sp, so)
+		case 4:
+			// used between two configurations that share the parallels: final parallels, another origin, use, final origin
+			steps = append(steps, sp, func() {
+				if origin != nil && c.Omit&1 == 0 {
+					origin(other)
+				}
+			}, use, so)
+		case 5:
+			// ... that share the origin: final origin, other parallels, use, final parallels
+			steps = append(steps, so, func() {
+				if parallels != nil && c.Omit&2 == 0 {
+					parallels(c.P2/2+20, c.P1/3-35)
+				}
+			}, use, sp)
 		default:
 			steps = append(steps, so, sp)
 		}
@@ -78,34 +99,42 @@ func c19Build(c C19Case) c19Projection {
 	switch c.Proj {
 	case "albers":
 		p := carto.NewAlbersEqualAreaConic(c.Radius)
+		proj = p
 		configure(p.SetOrigin, p.SetStandardParallels)
 		return p
 	case "azimuthal":
 		p := carto.NewAzimuthalEquidistant(c.Radius)
+		proj = p
 		configure(p.SetCenter, nil)
 		return p
 	case "equidistantconic":
 		p := carto.NewEquidistantConic(c.Radius)
+		proj = p
 		configure(func(o geom.XY) { p.SetOrigin(o) }, func(a, b float64) { p.SetStandardParallels(a, b) })
 		return p
 	case "equirectangular":
 		p := carto.NewEquirectangular(c.Radius)
+		proj = p
 		configure(func(o geom.XY) { p.SetCentralMeridian(o.X) }, func(a, _ float64) { p.SetStandardParallels(a) })
 		return p
 	case "lambertconformal":
 		p := carto.NewLambertConformalConic(c.Radius)
+		proj = p
 		configure(p.SetOrigin, p.SetStandardParallels)
 		return p
 	case "lambertcylindrical":
 		p := carto.NewLambertCylindricalEqualArea(c.Radius)
+		proj = p
 		configure(func(o geom.XY) { p.SetCentralMeridian(o.X) }, nil)
 		return p
 	case "orthographic":
 		p := carto.NewOrthographic(c.Radius)
+		proj = p
 		configure(p.SetCenter, nil)
 		return p
 	case "sinusoidal":
 		p := carto.NewSinusoidal(c.Radius)
+		proj = p
 		configure(func(o geom.XY) { p.SetCentralMeridian(o.X) }, nil)
 		return p
 	default:
@@ -171,7 +200,7 @@ func c19Gen(t *rapid.T, cx *h.Ctx) C19Case {
 	}
 	c.Zoom = rapid.IntRange(0, 30).Draw(t, "zoom")
 	// configuration history: setter order, re-configuration, setters left at their documented defaults
-	c.Order = rapid.IntRange(0, 2).Draw(t, "order")
+	c.Order = rapid.SampledFrom([]int{0, 1, 2, 4, 5}).Draw(t, "order")
 	c.Omit = rapid.SampledFrom([]int{0, 0, 0, 1, 2, 3}).Draw(t, "omit")
 	if c.Omit&2 != 0 {
 		switch c.Proj {
@@ -305,6 +334,11 @@ func c19Check(c C19Case, cx *h.Ctx) *h.Failure {
 			}
 		case "lambertconformal", "webmercator": // conformal: columns orthogonal, |d/dlambda| / cos(lat) = |d/dphi|
 			la, lb := math.Hypot(ax, ay), math.Hypot(bx, by)
+			// a rotation, not a reflection: east-then-north stays counter-clockwise (web Mercator's y runs
+			// southward by definition, so there it is clockwise)
+			if det := ax*by - ay*bx; c.Proj == "lambertconformal" && !(det > 0) || c.Proj == "webmercator" && !(det < 0) {
+				return h.Failf("proj/not-conformal:"+c.Proj, "at (%v %v): J columns (%g %g) and (%g %g) have det %g: the map is mirrored%s", lon, lat, ax, ay, bx, by, det, desc())
+			}
 			if math.Abs(ax*bx+ay*by) > 1e-6*la*lb || !rel(la/cosφ, lb) {
 				return h.Failf("proj/not-conformal:"+c.Proj, "at (%v %v): J columns (%g %g) and (%g %g) are not a rotation times a scalar after the cos(lat) correction%s", lon, lat, ax, ay, bx, by, desc())
 			}
@@ -396,7 +430,7 @@ func TestC19(t *testing.T) {
 	h.Run(t, h.Prop[C19Case]{
 		ID:              "C19",
 		WholeCheckLimit: 300 * time.Second,
-		Rule:            "cases = one of the 9 carto projections with a drawn configuration (centre/origin over the sphere incl. the default and, for the two azimuthal projections, exactly and nearly polar centres, standard parallels in both hemispheres and orders with |p1-p2| >= 5 and |p1+p2| >= 10 degrees, the setters called in either order, after a previous configuration, or left at their documented defaults, radius 1 / WGS84 mean / WGS84 equatorial / 6371, zoom 0..30) and 4..16 points: the centre/origin itself, points on the standard parallels, graticule points and random points, restricted to the well-conditioned domain (|lat| <= 85, within 60 degrees of arc for azimuthal/orthographic, |n x dlon| < 89 degrees for conics); plus the enumerated graticule (5-degree in quick, 1-degree in thorough) for 5 fixed configurations. Checks: Forward finite; Reverse(Forward(p)) within 1e-9 degrees (a NaN fails); Jacobian by central differences at 1e-4 degrees: equal-area det J = R^2 cos(lat) (Albers, Lambert cylindrical, sinusoidal), conformal J^T J = s^2 diag(cos^2 lat, 1) (Lambert conformal conic, web Mercator), azimuthal |Forward(p)| = R x great-circle angle, meridian scale 1 (equidistant conic, equirectangular), standard parallels true to scale, web Mercator world -> [0,2^zoom]^2, centre, y southward; relative tolerance 1e-6 on Jacobians. non-trivial = non-default centre/origin and a point >= 1 degree away",
+		Rule:            "cases = one of the 9 carto projections with a drawn configuration (centre/origin over the sphere incl. the default and, for the two azimuthal projections, exactly and nearly polar centres, standard parallels in both hemispheres and orders with |p1-p2| >= 5 and |p1+p2| >= 10 degrees, the setters called in either order, after a previous configuration, with the projection used between two configurations, or left at their documented defaults, radius 1 / WGS84 mean / WGS84 equatorial / 6371, zoom 0..30) and 4..16 points: the centre/origin itself, points on the standard parallels, graticule points and random points, restricted to the well-conditioned domain (|lat| <= 85, within 60 degrees of arc for azimuthal/orthographic, |n x dlon| < 89 degrees for conics); plus the enumerated graticule (5-degree in quick, 1-degree in thorough) for 5 fixed configurations. Checks: Forward finite; Reverse(Forward(p)) within 1e-9 degrees (a NaN fails); Jacobian by central differences at 1e-4 degrees: equal-area det J = R^2 cos(lat) (Albers, Lambert cylindrical, sinusoidal), conformal J^T J = s^2 diag(cos^2 lat, 1) with det J > 0 (Lambert conformal conic) / < 0 (web Mercator, y southward), azimuthal |Forward(p)| = R x great-circle angle, meridian scale 1 (equidistant conic, equirectangular), standard parallels true to scale, web Mercator world -> [0,2^zoom]^2, centre, y southward; relative tolerance 1e-6 on Jacobians. non-trivial = non-default centre/origin and a point >= 1 degree away",
 		Assumptions:     []string{"math package accuracy", "singular configurations (equal or symmetric standard parallels, cos(p1) = 0) are excluded"},
 		Gen:             c19Gen,
 		Check:           c19Check,
